@@ -124,10 +124,11 @@ class MessageHandler(Generic[_T, _K]):
         def _handler(message: _T):
             if timeout_task:
                 timeout_task.cancel()
-            # Whatever was awaiting this future now owns this message
-            if take:
-                message = message.take()
+            # Nobody is waiting anymore (cancelled or timed out), leave the message alone
             if not fut.done():
+                # Whatever was awaiting this future now owns this message
+                if take:
+                    message = message.take()
                 fut.set_result(message)
             # Make sure to unregister this handler for all message types
             for n in notifiers:
